@@ -17,6 +17,7 @@ import resource
 import shutil
 import signal
 import subprocess
+import sys
 import time
 
 from vf import core
@@ -54,8 +55,13 @@ PROJECT_PATH = re.compile(r"/src/(?:cppparser|interrogate|interrogatedb|dtooluti
 def _fn_name(s):
     """function name of a symbolised frame without its parameter list / template arguments."""
     s = s.strip()
-    if s.startswith("operator"):
-        return re.sub(r"\(.*\).*$", "", s) if not s.startswith("operator()") else "operator()"
+    i = s.find("operator")
+    if i >= 0 and (i == 0 or not (s[i - 1].isalnum() or s[i - 1] == "_")):
+        rest = s[i + 8:]
+        if rest.lstrip().startswith("()"):
+            return s[:i] + "operator()"
+        j = rest.find("(")
+        return (s[:i] + "operator" + (rest[:j] if j >= 0 else rest)).strip()
     out, depth = [], 0
     for ch in s:
         if ch == "<":
@@ -63,15 +69,11 @@ def _fn_name(s):
         elif ch == ">":
             depth = max(0, depth - 1)
         elif ch == "(" and depth == 0:
-            if "".join(out).endswith("operator"):
-                out.append("()")
-                break
             break
         elif depth == 0:
             out.append(ch)
     name = "".join(out).strip()
-    # drop a leading return type ("int foo::bar" never appears in gcc/llvm symbolizer output, but be safe)
-    return name.split(" ")[-1] if " " in name and "operator" not in name else name
+    return name.split(" ")[-1] if " " in name else name
 
 
 def project_frames(err):
@@ -125,9 +127,12 @@ def hang_signature(err):
         return "?"
     nframes = len(re.findall(r"^\s*#\d+ 0x", err, re.M))
     if nframes >= 200 or "main" not in fr:
+        # which of the mutually recursive functions is on top when the abort arrives varies from run to run
+        # (is_equal / is_less / operator== ...); their classes do not
         cyc = _cycle(fr)
         if cyc:
-            return "recursion=" + ",".join(cyc[:4])
+            cls = sorted({f.rsplit("::", 1)[0] if "::" in f else f for f in cyc})
+            return "recursion-in=" + "+".join(cls[:4])
     for f in reversed(fr):
         if f not in DRIVER_FRAMES:
             return f
@@ -773,6 +778,9 @@ def main(chk):
         cases = fz + cases
     chk.run_cases(__name__, cases)
     second_phase(chk)
+    # core.Check.finish() reports harness errors only when there is no violation; never lose them
+    for e in chk.harness_errors[:5]:
+        print("HARNESS-ERROR (C15 case lost):", e.strip()[-600:], file=sys.stderr)
     c = chk.counters
     chk.extra.update(
         asan_reports=c.get("asan_reports", 0), ubsan_arith_reports=c.get("ubsan_arith_reports", 0),
